@@ -61,11 +61,20 @@ Judge(e) ==
              /\ ((Has(e, "rewrite_same") /\ ~e.rewrite_same) \/ Has(e, "rewrite_err"))
           THEN Rej("C17.rewrite-identical", e) ELSE TRUE
        /\ PrintT(<<"STAT", IF sOk THEN 1 ELSE 0, IF modelOk THEN 1 ELSE 0>>)
+\* the frame iterator over a VALID stream yields every frame, each at the offset where it starts (the model's frame lengths), and the
+\* structure it hands out, written back, is what lies at that offset
+RECURSIVE StartsOf(_, _)
+StartsOf(lens, at) == IF lens = <<>> THEN <<>> ELSE <<at>> \o StartsOf(Tail(lens), at + Head(lens))
+JudgeWalk(e) ==
+    /\ IF e.ret = "panic" THEN Rej("C17.no-panic", e) ELSE TRUE
+    /\ IF Has(item, "valid") /\ item.valid /\ Has(item, "frameLens") /\ (e.ret # "ok" \/ e.offsets # StartsOf(item.frameLens, item.metaLen))
+       THEN Rej("C17.iterator-yields-every-frame-at-its-offset", e) ELSE TRUE
 Init == l = 1 /\ item = [id |-> 0]
 Next == /\ l <= Len(Rec) /\ l' = l + 1
         /\ LET e == Rec[l] IN
            IF e.ev = "item" THEN item' = e
            ELSE IF e.ev = "struct" THEN Judge(e) /\ UNCHANGED item
+           ELSE IF e.ev = "iterwalk" THEN JudgeWalk(e) /\ UNCHANGED item
            ELSE UNCHANGED item
 Spec == Init /\ [][Next]_tvars
 Post == IF TLCGet("stats").diameter - 1 = Len(Rec) THEN PrintT(<<"TRACE-DONE", Len(Rec)>>)
